@@ -67,6 +67,9 @@ static std::string regex_text(Pat const &p,unsigned variant=0)
 		else if(e.k=="w") r+="(\\w+)";
 		else if(e.k=="any") r+="(.*)";
 		else if(e.k=="alt") { r+="("; for(size_t q=0;q<e.o.size();q++) { if(q) r+="|"; r+=rx_escape(e.o[q]); } r+=")"; }
+		else if(e.k=="altn") { r+="(?:"; for(size_t q=0;q<e.o.size();q++) { if(q) r+="|"; r+=rx_escape(e.o[q]); } r+=")"; }
+		else if(e.k=="up") r+="[A-Z]+";
+		else if(e.k=="olit") r+=rx_escape(e.s)+"?";
 		else if(e.k=="os") r+="/?";
 		else if(e.k=="rest") r+=(variant&2)?"(/.*)?":"((?:/.*)?)";
 	}
@@ -77,9 +80,9 @@ static std::string jpat(Pat const &p)
 	std::string r="[";
 	for(size_t i=0;i<p.size();i++) {
 		if(i) r+=",";
-		r+="{\"k\":\""+p[i].k+"\"";
-		if(p[i].k=="lit") r+=",\"s\":"+jbytes(p[i].s);
-		if(p[i].k=="alt") { r+=",\"o\":["; for(size_t q=0;q<p[i].o.size();q++) { if(q) r+=","; r+=jbytes(p[i].o[q]); } r+="]"; }
+		r+="{\"k\":\""+(p[i].k=="altn"?std::string("alt"):p[i].k)+"\"";
+		if(p[i].k=="lit" || p[i].k=="olit") r+=",\"s\":"+jbytes(p[i].s);
+		if(p[i].k=="alt" || p[i].k=="altn") { r+=",\"o\":["; for(size_t q=0;q<p[i].o.size();q++) { if(q) r+=","; r+=jbytes(p[i].o[q]); } r+="]"; }
 		r+="}";
 	}
 	return r+"]";
@@ -113,13 +116,45 @@ static std::string jtmpl(std::string const &t)    // "{n}" -> {"p":n}, text -> {
 	return r+"]";
 }
 
-struct Meth { int kind; std::vector<std::string> set; std::string text; Meth() : kind(0) {} };   // 0 none, 1 given
+// method filter: the regular expression alt1|alt2|... in abstract syntax (its language is computed by TLC) and the text
+// handed to url_dispatcher, which decides from the text whether it is a plain verb or a regular expression
+struct Meth { int kind; std::vector<Pat> alts; std::string text; std::vector<std::string> set; Meth() : kind(0) {} };   // 0 none, 1 given; set: some words of the language
 static std::string jmeth(Meth const &m)
 {
 	if(!m.kind) return "{\"k\":\"none\"}";
-	std::string r="{\"k\":\"set\",\"text\":"+jstr(m.text)+",\"s\":[";
-	for(size_t i=0;i<m.set.size();i++) { if(i) r+=","; r+=jstr(m.set[i]); }
+	std::string r="{\"k\":\"re\",\"text\":"+jstr(m.text)+",\"alts\":[";
+	for(size_t i=0;i<m.alts.size();i++) { if(i) r+=","; r+=jpat(m.alts[i]); }
 	return r+"]}";
+}
+static El OL(std::string const &s) { El e; e.k="olit"; e.s=s; return e; }
+static El ALTN(std::string const &a,std::string const &b) { El e; e.k="altn"; e.o.push_back(a); e.o.push_back(b); return e; }
+static Pat P1(El const &a) { Pat p; p.push_back(a); return p; }
+static Pat P2(El const &a,El const &b) { Pat p; p.push_back(a); p.push_back(b); return p; }
+static Meth mkmeth(std::vector<Pat> const &alts,char const *w1,char const *w2=0)
+{
+	Meth m; m.kind=1; m.alts=alts;
+	for(size_t i=0;i<alts.size();i++) { if(i) m.text+="|"; m.text+=regex_text(alts[i]); }
+	m.set.push_back(w1); if(w2) m.set.push_back(w2);
+	return m;
+}
+static Meth meth_family(unsigned k)
+{
+	std::vector<Pat> a;
+	switch(k) {
+	case 0: a.push_back(P1(L("GET"))); return mkmeth(a,"GET");                                              // GET
+	case 1: a.push_back(P1(L("POST"))); return mkmeth(a,"POST");                                            // POST
+	case 2: a.push_back(P1(ALT("GET","POST"))); return mkmeth(a,"GET","POST");                              // (GET|POST)
+	case 3: a.push_back(P1(L("get"))); return mkmeth(a,"get");                                              // get
+	case 4: a.push_back(P1(ALTN("PUT","DELETE"))); return mkmeth(a,"PUT","DELETE");                         // (?:PUT|DELETE)
+	case 5: a.push_back(P1(L("GET"))); a.push_back(P1(L("HEAD"))); return mkmeth(a,"GET","HEAD");           // GET|HEAD
+	case 6: a.push_back(P2(L("P"),ALT("UT","ATCH"))); a.push_back(P1(L("MOVE"))); return mkmeth(a,"PATCH","MOVE");   // P(UT|ATCH)|MOVE
+	case 7: { El u; u.k="up"; a.push_back(P1(u)); return mkmeth(a,"DELETE","GET"); }                        // [A-Z]+
+	case 8: a.push_back(P1(L("GET"))); a.push_back(P2(L("POS"),OL("T"))); return mkmeth(a,"POS","POST");    // GET|POST?
+	case 9: a.push_back(Pat()); return mkmeth(a,"");                                                        // the empty filter
+	case 10: a.push_back(P1(ALT("GET","POST"))); a.push_back(P1(L("PUT"))); return mkmeth(a,"POST","PUT");  // (GET|POST)|PUT
+	case 11: a.push_back(P1(L("PUT"))); a.push_back(P1(ALT("GET","POST"))); return mkmeth(a,"PUT","GET");   // PUT|(GET|POST)
+	default: a.push_back(P1(L("HEAD"))); a.push_back(P1(L("GET"))); a.push_back(P1(L("PUT"))); return mkmeth(a,"HEAD","PUT");   // HEAD|GET|PUT
+	}
 }
 struct Opt {
 	bool mount; int id; Pat pat; std::string re; Meth meth; std::vector<int> sel; int child; int api;   // api: 0 assign, 1 map_generic, 2 assign_generic
@@ -327,7 +362,7 @@ static std::string jhits(DRes const &r)
 static void do_req(node_app &root,std::string const &m,std::string const &p)
 {
 	DRes r=dispatch(root,m,p); n_req++;
-	tr.line("{\"e\":\"Req\",\"m\":"+jstr(m)+",\"p\":"+jbytes(p)+","+jhits(r)+"}");
+	tr.line("{\"e\":\"Req\",\"m\":"+jstr(m)+",\"mb\":"+jbytes(m)+",\"p\":"+jbytes(p)+","+jhits(r)+"}");
 }
 static std::string join(std::vector<std::string> const &c,bool abs)
 {
@@ -368,7 +403,7 @@ static void do_map(node_app &root,std::string const &prefix,int app,bool abs,std
 	s+="],\"ok\":"+std::string(ok?"true":"false")+",\"url\":"+jbytes(url)+",\"tapp\":"+itos(tapp)+",\"tid\":"+itos(tid)+",";
 	DRes r; r.st=0;
 	if(ok && url.compare(0,prefix.size(),prefix)==0) r=dispatch(root,meth,url.substr(prefix.size()));
-	s+="\"m\":"+jstr(meth)+",";
+	s+="\"m\":"+jstr(meth)+",\"mb\":"+jbytes(meth)+",";
 	s+=jhits(r)+"}";
 	tr.line(s);
 }
@@ -410,14 +445,15 @@ static Opt mk_h(int i,int v,unsigned rxv)
 	Opt o; o.id=i*10+v; o.pat=hpat(i); o.re=regex_text(o.pat,rxv);
 	int n=ngroups(o.pat);
 	for(int k=1;k<=n;k++) o.sel.push_back(v==2 ? n+1-k : k);
-	if(v==2) { o.meth.kind=1; o.meth.text="GET"; o.meth.set.push_back("GET"); }
-	if(v==3) { o.meth.kind=1; o.meth.text="(GET|POST)"; o.meth.set.push_back("GET"); o.meth.set.push_back("POST"); }
+	if(v==2) o.meth=meth_family(0);        // GET
+	if(v==3) o.meth=meth_family(2);        // (GET|POST)
+	if(v==4) { std::vector<Pat> a; a.push_back(P1(L("GET"))); a.push_back(P1(L("POST"))); o.meth=mkmeth(a,"GET","POST"); }   // GET|POST
 	return o;
 }
 static std::vector<Opt> handlers(int depth,unsigned rxv)
 {
 	std::vector<Opt> h;
-	if(depth==1) { for(int i=1;i<=6;i++) h.push_back(mk_h(i,1,rxv)); h.push_back(mk_h(1,2,rxv)); h.push_back(mk_h(3,2,rxv)); h.push_back(mk_h(3,3,rxv)); }
+	if(depth==1) { for(int i=1;i<=6;i++) h.push_back(mk_h(i,1,rxv)); h.push_back(mk_h(1,2,rxv)); h.push_back(mk_h(3,3,rxv)); h.push_back(mk_h(3,4,rxv)); }
 	else for(int i=1;i<=3;i++) h.push_back(mk_h(i,1,rxv));
 	return h;
 }
@@ -450,6 +486,7 @@ static void run_cfg_requests(Cfg const &c,std::vector<std::string> const &reqs,s
 	for(size_t r=0;r<reqs.size() && r<6;r++) {
 		for(int k=0;k<3;k++) do_req(root,"GET",reqs[r]+nl[k]);
 		do_req(root,"GET\n",reqs[r]); do_req(root,"POST\r\n",reqs[r]); do_req(root,"GET\nX",reqs[r]);
+		do_req(root,"GET|POST",reqs[r]); do_req(root,"(GET|POST)",reqs[r]); do_req(root,"",reqs[r]);     // the filter text itself, the empty method
 	}
 }
 static void mode_fam(int maxseg,int shard,int nshards)
@@ -522,14 +559,10 @@ static Pat rnd_pat(vt::rng &rnd,bool mount)
 static Meth rnd_meth(vt::rng &rnd)
 {
 	Meth m;
-	switch(rnd(8)) {
-	case 0: m.kind=1; m.text="GET"; m.set.push_back("GET"); break;
-	case 1: m.kind=1; m.text="POST"; m.set.push_back("POST"); break;
-	case 2: m.kind=1; m.text="(GET|POST)"; m.set.push_back("GET"); m.set.push_back("POST"); break;
-	case 3: m.kind=1; m.text="get"; m.set.push_back("get"); break;
-	case 4: m.kind=1; m.text="(?:PUT|DELETE)"; m.set.push_back("PUT"); m.set.push_back("DELETE"); break;
+	switch(0) {
 	default: break;
 	}
+	if(rnd(5)<3) return meth_family(rnd(13));
 	return m;
 }
 static int build_rnd(Cfg &c,int parent,int depth,vt::rng &rnd,int &hid,std::string const &dpath=std::string())
@@ -620,13 +653,26 @@ static void mode_rand(long configs,long reqs,vt::rng &rnd)
 			if(!c[i].mroot.empty()) mp.root(c[i].mroot);
 			mp.set_value("lang",helper_val(i+1));
 		}
+		std::vector<Meth> filters;
+		for(size_t n=0;n<c.size();n++) for(size_t q=0;q<c[n].opts.size();q++) if(!c[n].opts[q].mount && c[n].opts[q].meth.kind) filters.push_back(c[n].opts[q].meth);
 		for(long r=0;r<reqs;r++) {
 			std::string p;
 			unsigned k=rnd(10);
 			if(k<5) p=sample_url(c,1,rnd);
 			else if(k<9) { p=sample_url(c,1,rnd); p=edit(p,rnd); if(rnd(3)==0) p=edit(p,rnd); }
 			else { size_t l=rnd(8); for(size_t i=0;i<l;i++) p+="/a1b-_"[rnd(6)]; }
-			do_req(root,ms[rnd(rnd(2)?2:14)],p);
+			std::string mth=ms[rnd(rnd(2)?2:14)];
+			if(!filters.empty() && rnd(2)) {
+				Meth const &f=filters[rnd(filters.size())];
+				std::string w=f.set[rnd(f.set.size())];
+				switch(rnd(5)) {
+				case 0: case 1: mth=w; break;                                        // inside the language
+				case 2: mth=f.text; break;                                           // the filter text itself as method
+				case 3: mth=w; for(size_t i=0;i<mth.size();i++) if(mth[i]>='A'&&mth[i]<='Z') mth[i]+=32; break;   // lower case
+				default: mth=rnd(2)?std::string():w+"X"; break;                      // empty / one letter more
+				}
+			}
+			do_req(root,mth,p);
 		}
 		// every key of every node, from every node, in every form
 		for(size_t t=0;t<c.size();t++) for(size_t ki=0;ki<c[t].keys.size();ki++) {
